@@ -118,6 +118,7 @@ type Table struct {
 	Areas        []Area         `json:"areas"`
 	Inside       [][]bool       `json:"inside"`
 	Cross        [][][]bool     `json:"cross"`
+	CrossOrigin  [][]bool       `json:"cross_origin"` // segment from longitude 0 / latitude 0 to the cell
 	Touch        [][]bool       `json:"touch"`
 	TouchU       [][][]bool     `json:"touch_u"`
 	MinClearance float64        `json:"min_clearance"`
@@ -394,6 +395,31 @@ func (c circle) rectMeets(r [4]pt) (bool, float64) {
 	return lo <= 1, math.Abs(lo - 1)
 }
 
+// clipSeg clips the segment a-b to the square [lo,hi] x [lo,hi] (Liang-Barsky); ok = false: it misses the square.
+func clipSeg(a, b pt, lo, hi float64) (pt, pt, bool) {
+	t0, t1 := 0.0, 1.0
+	d := sub(b, a)
+	for _, e := range [4][2]float64{{-d.x, a.x - lo}, {d.x, hi - a.x}, {-d.y, a.y - lo}, {d.y, hi - a.y}} {
+		p, q := e[0], e[1]
+		if p == 0 {
+			if q < 0 {
+				return a, b, false
+			}
+			continue
+		}
+		r := q / p
+		if p < 0 {
+			t0 = math.Max(t0, r)
+		} else {
+			t1 = math.Min(t1, r)
+		}
+	}
+	if t0 > t1 {
+		return a, b, false
+	}
+	return pt{a.x + t0*d.x, a.y + t0*d.y}, pt{a.x + t1*d.x, a.y + t1*d.y}, true
+}
+
 // rectsMeet: do two closed axis-parallel rectangles (lo, hi corners; possibly degenerate) meet, and by how much
 // would one have to be shifted to change that.
 func rectsMeet(lo1, hi1, lo2, hi2 pt) (bool, float64) {
@@ -656,6 +682,23 @@ func BuildTable(sd SceneDef) (*Table, error) {
 				}
 			}
 		}
+		origin := toUV(0, 0)
+		crossO := make([]bool, n)
+		for ci := range cg {
+			// (every area lies within a few frame units of the frame: only that part of the long segment matters)
+			x, cl := false, 1.0
+			if p, q, ok := clipSeg(origin, cg[ci].c, -8, 9); ok {
+				x, cl = reg.segment(p, q)
+			}
+			if err := note(fmt.Sprintf("area %d segment from 0,0 to %s (meets=%v)", ai+1, t.Cells[ci].Name, x), cl); err != nil {
+				return nil, err
+			}
+			crossO[ci] = x
+			if x && !inside[ci] {
+				t.Counts["outside_cells_behind_the_area_seen_from_0_0"]++
+			}
+		}
+		t.CrossOrigin = append(t.CrossOrigin, crossO)
 		if a.SentinelCell == 0 {
 			return nil, fmt.Errorf("scene %s: no cell lies inside area %d", sd.Name, ai+1)
 		}
